@@ -411,3 +411,33 @@ CHECKS["C19"] = dict(
     assumptions=["the race detector only sees interleavings that occur: dynamic, not exhaustive"],
     units=[unit("props-race", ["KeyList", "ReplayCache", "ReplayCacheZero", "NAT", "Listeners", "SharedDelivery", "Collectors", "TCPService", "PacketService"], "C19", crash_is_violation=True, wedge_is_violation=True, timeout=(400, 2400))],
 )
+
+# ---------------------------------------------------------------------------------------------------
+# Generator dimensions and oracles added after the first build (sensitivity rounds 3-5 and the mutant
+# campaign, DESIGN 7.5-7.7). Kept here, in one place, and prefixed to the rule text that goes into
+# every evidence file.
+_ADDED = {
+    "C01": "(Auth) slowconnect = a key-list update lands between connect and first bytes; every fourth stream has a salt that opens like HTTP/TLS/SSH. "
+           "(Concurrent) 2..12 workers on 2..4 client addresses use one key of a 3..3000-key list at the same moment: every lookup authenticates.",
+    "C02": "(Relay) every other case uses a salt that opens like another protocol. (Concurrent) 2..16 workers x 10..120 connections at once through one handler. "
+           "(Duplex) 12..40 MB each way, the client uploads without reading while the target pushes at once: the upload completes, then everything is read.",
+    "C03": "(Shared) 2..4 UDP sockets on one handler, every datagram from a fresh client socket, payloads checked at the target. "
+           "(worlds) update may land during a TCP handshake of the same key list under a key being dropped; one client on the host's link-local (zoned) address; a target on port 53 with the DNS fast close modelled.",
+    "C04": "(worlds) see C03: link-local client, port-53 target, update during a TCP handshake, slow removal-report sink.",
+    "C05": "(FirstUse) the first destination checks of a fresh process made by 4..16 goroutines at once, as a unit of its own in the plain and in the -race engine.",
+    "C06": "(AcrossReload) the real server with replay history on: a handshake accepted before 0..3 reloads is presented again and must get nothing and stay open.",
+    "C07": "(Server) every presentation differs after the salt; in a third of the cases the history is 0 when the services are built and enabled afterwards.",
+    "C08": "(Salts) a third of the cases reflect to a key list rebuilt from the same keys.",
+    "C09": "(Config) every fourth configuration is loaded after another one and a reload that failed while starting; key universes contain ids that go with a secret under two ciphers, and secrets that differ only in letter case. ",
+    "C10": "badtype also = a known type in another spelling (TCP, Udp, 'tcp '). ",
+    "C11": "reloads that must fail (an address held by the tester) while hammering; pad_keys = 3000/15000 further keys in the retained service. ",
+    "C13": "dial = clients connect and nobody accepts; one listen in eight under another spelling of the address; one case in ten opens 40..160 addresses and closes them in a row. ",
+    "C15": "(added) scenario target_first_upload; connect_fail with unresolvable host names of 1..255 bytes; a slow sink for the cipher-search metric; data_bytes_per_location adds up to data_bytes. ",
+    "C16": "(worlds) see C03; the answer of a single DNS query (fast close) must be reported. ",
+    "C17": "(Ledger) lookups fail for some clients in a third of the cases; (Concurrent) every client network has its own AS number. ",
+    "C18": "(ServeStop) the accept function closes the listener right after the k-th accept: StreamServe returns only when every accepted connection's handler has. (UDP) hostile datagrams also as the first datagram of other client addresses; cases run with the garbage collector off. ",
+    "C19": "(ReplayCacheZero) recorded handshakes stay refused while the cache is switched off and on; (PacketService) one packet handler on several sockets; collectors see a new AS number per client network. ",
+    "C20": "(Concurrent) scrapers against workers with a slow database: no empty location while lookup is enabled. (E2E) the real stream service in front of the real collector, clients ending by FIN, reset or silence: nothing exported contains their IP or ':port'. (Class) typed addresses whose IP field is not an IP address. ",
+}
+for _k, _v in _ADDED.items():
+    CHECKS[_k]["rule"] = _v.strip() + " " + CHECKS[_k]["rule"]
